@@ -6,20 +6,21 @@ import (
 	"fmt"
 	"go/constant"
 	"go/types"
+	"golang.org/x/tools/go/ssa"
 	"math/big"
 	"strings"
 )
 
 type Env struct {
-	x     *Exec
-	st    *State
-	old   *Snapshot // state for old(); nil means old(e) == e
-	inOld bool
-	vars  map[string]Val
-	entry *Snapshot // entry of the function under verification (for fresh())
-	bound map[string]bool
-	oldVars map[string]Val // entry values of (reassigned) parameters, visible inside old()
-	patc    *patCollector  // collects default triggers while a quantifier body is translated
+	x       *Exec
+	st      *State
+	old     *Snapshot // state for old(); nil means old(e) == e
+	inOld   bool
+	vars    map[string]Val
+	entry   *Snapshot // entry of the function under verification (for fresh())
+	bound   map[string]bool
+	oldVars map[string]Val    // entry values of (reassigned) parameters, visible inside old()
+	patc    *patCollector     // collects default triggers while a quantifier body is translated
 	derefOv map[string]string // pointer term -> value: captured cells that nobody writes once the closure exists
 }
 
@@ -787,6 +788,24 @@ func (e *Env) call(c *ECall) Val {
 			return term(ov, es, pt.Elem())
 		}
 		return term(sel(e.heap("cell."+es, es), a.T), es, pt.Elem())
+	case "closure":
+		// closure("Len$1"): the closure value of that function literal made in the function under verification
+		// (independent of the name of the local it is assigned to)
+		if len(c.Args) != 1 {
+			e.fail("closure takes one string")
+		}
+		sv, ok := c.Args[0].(*EStr)
+		if !ok {
+			e.fail("closure takes a string literal")
+		}
+		fr := e.st.frames[0]
+		for k, val := range fr.vals {
+			if mc, ok := k.(*ssa.MakeClosure); ok && strings.HasSuffix(shortName(mc.Fn.(*ssa.Function)), sv.S) {
+				return val
+			}
+		}
+		e.fail("no closure %s has been made on this path", sv.S)
+		return Val{}
 	case "funcref":
 		// funcref("bytes.Compare"): the reference a function constant evaluates to
 		if len(c.Args) != 1 {
